@@ -350,7 +350,23 @@ class StringInterp(AbsInt):
                 elif isinstance(recv, ast.Name) and recv.id in self.out_lists and name == "extend" and c.args:
                     self.emit_list(c.args[0], st, c)
                 elif recv is None and name in self.nested:
-                    self.inline(self.nested[name], st)
+                    # parameters of the nested function: modelled strings are bound in the state, flag-valued arguments in the flag evaluator
+                    fn = self.nested[name]
+                    params = [a.arg for a in fn.args.args]
+                    bound = list(zip(params, c.args)) + [(k.arg, k.value) for k in c.keywords if k.arg in params]
+                    saved = dict(self.fe.extra)
+                    for prm, arg in bound:
+                        ss = self.strings(arg, st)
+                        if ss is not None:
+                            st[prm] = ss
+                        tv = self.fe.truth(arg)
+                        if tv is not None:
+                            self.fe.extra[prm] = tv
+                        else:
+                            self.fe.extra.pop(prm, None)
+                    self.inline(fn, st)
+                    self.fe.extra.clear()
+                    self.fe.extra.update(saved)
 
     def inline(self, fn: ast.FunctionDef, st):
         fr = _Frame()
